@@ -6,7 +6,7 @@ META = {
     "level": "model_checking",
     "technique": "TLA+ spec of the estimation algorithm over an unknown success predicate (Estimator.tla) model-checked with TLC; probe sequences of the real gasestimator.Estimate (hook) validated step by step against EstimatorTrace.tla; returned limits re-executed at r and r-1",
     "text": "TLC runs the documented algorithm (caps, plain-transfer shortcut, probe at the cap, optimistic probe, clamped bisection, ErrorRatio stop) against every hidden program of a bounded family (all monotone thresholds; thresholds with one island/hole for gas-dependent programs), every used/peak pair and every cap, and checks termination, sufficiency, minimality (ErrorRatio=0, monotone), the ratio bound and the cap bound. The real Estimate is run on generated contract worlds (calls, nested calls, creates, transfers; Cancun/Prague/Osaka; random caller gas, balances, fee caps, gas caps, ErrorRatio); every trial execution is observed through a guarded hook in gasestimator.run and TLC checks that each probe and the answer are exactly what the specification's algorithm does next; the driver independently re-executes the call at the estimate (must succeed), one below (must fail when monotone and exact), and the estimate must not exceed the cap computed by the specification from funds, gas cap and the EIP-7825 transaction cap.",
-    "note": "Trusts TLC, the hook line in gasestimator.run, the driver's own re-execution (core.ApplyMessage on a state copy), the generator's monotonicity mark (self-checked on sampled limits, reported as a note), ErrorRatio restricted to 2^-k (exact in float64 and in TLC integers), gas limits <= 30M. MC assumes the cap admits the 21000 probe of a plain transfer (see NOTES.md).",
+    "note": "Trusts TLC, the hook line in gasestimator.run, the driver's own re-execution (core.ApplyMessage on a state copy), the generator's monotonicity mark (self-checked on sampled limits, reported as a note), ErrorRatio restricted to 2^-k (exact in float64 and in TLC integers), gas limits <= 30M.",
     "design_ref": "3.5 C37",
 }
 
@@ -16,14 +16,23 @@ def run(ctx):
     th = ctx.thorough
     for cfg in ("MCEstimator", "MCEstimatorRatio", "MCEstimatorHoles"):
         ctx.model_check("evm/MCEstimator", "evm/" + cfg + ("Thorough" if th else ""), workers=4,
-                        timeout=ctx.pick(600, 2400), name=cfg, coverage=th and cfg == "MCEstimator")
+                        timeout=7200, name=cfg, coverage=th and cfg == "MCEstimator")
+    # V: generated worlds / programs / requests
     tp = os.path.join(ctx.scratch, "trace.ndjson")
-    s, _ = ctx.drive(drv, ["-mode", "record", "-trace", tp, "-n", ctx.pick(400, 6000)], name="c37-record")
-    ok, consumed, total, r = ctx.validate("evm/EstimatorTrace", tp, ntraces=s["traces"], timeout=ctx.pick(600, 2400))
+    s, _ = ctx.drive(drv, ["-mode", "record", "-trace", tp, "-n", ctx.pick(400, 6000)], name="c37-record", timeout=3600)
+    ok, consumed, total, r = ctx.validate("evm/EstimatorTrace", tp, ntraces=s["traces"], timeout=7200)
     if not ok:
         ctx.reject_trace("evm/EstimatorTrace", tp, consumed, r)
     for n in s.get("notes") or []:
         ctx.notes.append(n)
+    # V: boundary requests (plain transfers under a gas cap / funds below 21000 gas - finding C37-F1, fixed -,
+    # caller gas < 21000, caps at the requirement, Osaka cap)
+    ep = os.path.join(ctx.scratch, "edge.ndjson")
+    s, _ = ctx.drive(drv, ["-mode", "edge", "-trace", ep, "-n", ctx.pick(150, 1500)], name="c37-edge", timeout=3600)
+    ok, consumed, total, r = ctx.validate("evm/EstimatorTrace", ep, ntraces=s["traces"], timeout=7200)
+    if not ok:
+        ctx.reject_trace("evm/EstimatorTrace", ep, consumed, r)
     return ctx.finish(rule="MC: every hidden program/used/peak/cap of the scaled universe; V: one trace per Estimate run, every probe + result + re-execution validated",
                       assumptions=["gas limits <= 30M and balances < 2^31 (TLC integers)", "ErrorRatio in {0} u {2^-k}",
-                                   "generator's monotone mark (no GAS opcode, callee failures propagate)"])
+                                   "generator's monotone mark (no GAS opcode, callee failures propagate)",
+                                   ])
